@@ -103,6 +103,7 @@ def handle (line : String) : String :=
   | "quiet" :: rest => cmdQuiet (parseText rest)
   | "parse" :: rest => cmdParse rest
   | "group" :: rest => cmdGroup rest
+  | "acc" :: rest => Sql.Driver.cmdAcc rest   -- accessors (SqlModel/AccDriver.lean), stream S-ACC
   -- >>> formatting-side commands (SqlModel/FilterDriver.lean)
   | "opt" :: rest => Sql.Driver.cmdOpt rest
   | "tokfilter" :: rest => Sql.Driver.cmdTokFilter rest
